@@ -825,7 +825,7 @@ pub fn exec_source(priorities: &[u32], max_len: usize, source: &mut dyn FnMut(&[
 // ---------------------------------------------------------------------------------------------
 // minimisation
 
-pub fn minimise(rec: &Record, class: &str, budget: usize) -> (Record, usize) {
+pub fn minimise(rec: &Record, class: &str, budget: usize, run: &dyn Fn(&Record) -> ExecOut) -> (Record, usize) {
     let mut best = rec.clone();
     let mut evals = 0usize;
     let still = |cand: &Record, evals: &mut usize| -> Option<Violation> {
@@ -833,7 +833,7 @@ pub fn minimise(rec: &Record, class: &str, budget: usize) -> (Record, usize) {
             return None;
         }
         *evals += 1;
-        exec(cand, false).violation.filter(|v| v.class() == class)
+        run(cand).violation.filter(|v| v.class() == class)
     };
     loop {
         let before = (best.ops.len(), best.priorities.len());
@@ -859,7 +859,7 @@ pub fn minimise(rec: &Record, class: &str, budget: usize) -> (Record, usize) {
             i += 1;
         }
         // trim the priority list to what is drawn, then try simpler priority assignments
-        let drawn = exec(&best, false).drawn.len();
+        let drawn = run(&best).drawn.len();
         if best.priorities.len() > drawn {
             let mut cand = best.clone();
             cand.priorities.truncate(drawn);
